@@ -1,6 +1,7 @@
 import KyupyVerif.Props.C11
 import KyupyVerif.Props.C10Datasheet
 import KyupyVerif.Proofs.VerilogLib5
+import KyupyVerif.Proofs.VerilogLib6
 /-! # C11 (capstone) — structural Verilog over a CELL LIBRARY: text → parse → `resolve_tlib_cells` → `SimOps` → `LogicSim`
 computes the DATASHEET denotation of the module
 
@@ -38,7 +39,8 @@ state element by its kind name), input port bits, assign pairs and undriven name
     every interface node (output port bit, data pin of a flip-flop / latch that is a primitive state element) is what the module
     observes (`vCaptures`).  `verilog_library_text_end_to_end` — the same for the circuit built from the model's reading of the
     printed module TEXT (`verilog_text_to_nnet`; any layout by `verilog_text_layout_irrelevant`).
-  - `verilog_lib_checker_sound` — the driver's acceptance check `vModelLibB` accepts only datasheet models.
+  - `verilog_lib_checker_sound` — the driver's acceptance check `vModelLibB` accepts only datasheet models;
+    `verilog_lib_certs_sound` — the driver's Boolean certificate check `certsB` implies the hypothesis `InstCert` of every library-cell node.
 * **Hypotheses that remain** (all decidable; evaluated by the driver on every generated case, harness/c11.py `library_sem`):
   `verilogOKB` (the fragment of `verilog_parsed_sem`); `libCleanB` (no library cell is called `input` / `output` / `__fork__` /
   `__const0__` / `__const1__`, no library instance has a kind name containing `dff` / `latch`); `NNet.wf` of the parsed dump;
@@ -208,6 +210,14 @@ theorem verilog_lib_checker_sound (isLib : String → Bool) (row : String → Ce
     (a : Nat → Bool) (tab : List (String × Bool)) (h : vModelLibB isLib row tl ports stmts a tab = true) :
     VModelLib isLib row tl ports stmts a (vEnvOf false tab) :=
   vModelLibB_sound isLib row a tab h
+
+/-- the driver's Boolean certificate check (`certsB`, Drv/VerilogLib.lean: `InstCert` clause by clause for every library-cell node,
+the table row looked up in the generated C19 tables by library index and cell name) implies the certificate hypothesis -/
+theorem verilog_lib_certs_sound (lib : Lib) (libIdx : Nat) (ord : String → List Nat) (nn : NNet)
+    (h : KV.Drv.VerilogLib.certsB lib (KV.Drv.VerilogLib.rowOf libIdx) ord nn = true) :
+    ∀ c, c < nn.net.nodes.size → (lib.find (nn.net.node c).kind).isSome = true →
+      InstCert lib (fun k => (KV.Drv.VerilogLib.rowOf libIdx k).getD KV.Drv.VerilogLib.emptyCell) ord nn c :=
+  KV.Drv.VerilogLib.certsB_sound lib _ ord nn (fun k cr hk => KV.Drv.VerilogLib.rowOf_mem libIdx k cr hk) h
 
 /-! ## non-vacuity: NANGATE `AOI21_X1` feeding `INV_X1`
 
